@@ -88,6 +88,9 @@ def scenarios():
     add("ok_dbgxml_dotted_name", {"dbgXml": 1}, opts=["-d"], out="pig.v2.ttf")
     add("ok_dbgxml_dot_slash", {"dbgXml": 1}, opts=["-d"], out="./dot.ttf")
     add("ok_dbgall_dotted_dir", {"dbgFiles": 1, "dbgXml": 1}, opts=["-D"], out="adir/build.v2/out.ttf")
+    # the input font is the compiler's own output (it already holds Graphite tables, which are replaced, not copied)
+    add("ok_recompile_own_output", {}, font_recompiled=True)
+    add("ok_recompile_own_output_dbg", {"dbgFiles": 1, "dbgXml": 1}, font_recompiled=True, opts=["-D"])
     # an error found only after the state machines have been generated (more than 65535 states): no font, destination untouched
     add("fsm_too_large", {"fsmOk": 0}, gdl=big_fsm_gdl())
     add("fsm_too_large_dbgxml", {"fsmOk": 0, "dbgXml": 1}, gdl=big_fsm_gdl(), opts=["-d"])
@@ -134,6 +137,18 @@ def run_scenario(build, work, name, setup, pre_existing_out=None):
     os.makedirs(d)
     os.makedirs(os.path.join(d, "adir", "build.v2"))
     font, _g, _c = ttf.simple_font(20)
+    if setup.get("font_recompiled"):
+        # the input font of this scenario is what the compiler makes of the plain font and another program
+        pre = os.path.join(work, name + "_pre")
+        shutil.rmtree(pre, ignore_errors=True)
+        os.makedirs(pre)
+        open(os.path.join(pre, "in.ttf"), "wb").write(font)
+        shutil.copy(common.STDDEF, pre)
+        open(os.path.join(pre, "q.gdl"), "w").write(WARN)
+        subprocess.run([build["grcompiler"], "-q", "q.gdl", "in.ttf", "first.ttf"], cwd=pre, env=dict(os.environ, GDLPP=build["gdlpp"]), capture_output=True)
+        if os.path.exists(os.path.join(pre, "first.ttf")):
+            font = open(os.path.join(pre, "first.ttf"), "rb").read()
+        shutil.rmtree(pre, ignore_errors=True)
     fontname = setup.get("fontname", "in.ttf")
     if "fontname" not in setup:
         open(os.path.join(d, "in.ttf"), "wb").write(setup.get("font_bytes", font))
